@@ -25,6 +25,9 @@ from pfhedge.instruments import VasicekRate
 from pfhedge.nn import BlackScholes
 from pfhedge.nn import Hedger
 from pfhedge.nn import MultiLayerPerceptron
+from pfhedge.nn import Naked
+from pfhedge.nn import WhalleyWilmott
+from pfhedge.instruments import BaseDerivative
 
 from .. import pipelines as P
 from ..gen import F32, F64, pick
@@ -34,8 +37,8 @@ F16, BF16 = torch.float16, torch.bfloat16
 RULE = (
     "exhaustive: every sequence of length <= D (D = 2 quick, 3 thorough) over 16 operations {to(f32), to(f64), float(), double(), half(), "
     "bfloat16(), to(f64 tensor), to(f32 tensor), to(instrument declared f64), to(undeclared instrument), to(instrument=...), simulate, register_buffer (float and integer tensor), "
-    "set_default_dtype(f64), to(int32) [must raise]} for each of 8 primaries (constructed with dtype None and f64) and 3 derivative "
-    "wrappers, under the float32 global default; plus seeded random sequences of length 4-10. After every operation the real object is compared "
+    "set_default_dtype(f64), to(int32) [must raise]} for each of 8 primaries (constructed with dtype None and f64) and 4 derivative "
+    "wrappers (one on two underliers), under the float32 global default; plus seeded random sequences of length 4-10. After every operation the real object is compared "
     "with the reference state machine. distinct = distinct (target, operation sequence); trivial = sequences without simulate/register_buffer"
 )
 ASSUMPTIONS = [
@@ -49,11 +52,24 @@ ANCHORS = ['pfhedge.instruments.primary.base:BasePrimary.to',
            'pfhedge.instruments.derivative.base:BaseDerivative.to',
            'pfhedge.stochastic._utils:cast_state']
 DECIDING = ["state_machine", "derived.dtype", "reject.int_dtype"]
-REQUIRED_BRANCHES = ["op.simulate_after_cast", "op.cast_after_simulate", "op.to_instrument", "op.register_buffer", "op.set_default", "derivative.alias"]
+REQUIRED_BRANCHES = ["op.simulate_after_cast", "op.cast_after_simulate", "op.to_instrument", "op.register_buffer", "op.set_default", "derivative.alias", "derivative.two_underliers"]
 
 PRIMS = ["brownian", "heston", "cir", "vasicek", "merton", "kou", "rbergomi", "localvol"]
 OPS = ["to_f32", "to_f64", "float", "double", "half", "bfloat16", "to_tensor64", "to_tensor32", "to_inst64", "to_inst_none", "to_inst_kw32", "simulate",
        "register", "register_int", "default64", "to_int"]
+
+
+class Spread(BaseDerivative):
+    """A user derivative on two underliers: its casts and simulations reach both."""
+
+    def __init__(self, u1, u2, maturity):
+        super().__init__()
+        self.register_underlier("u1", u1)
+        self.register_underlier("u2", u2)
+        self.maturity = maturity
+
+    def payoff_fn(self):
+        return torch.relu(self.u1.spot[:, -1] - self.u2.spot[:, -1])
 
 
 def build(kind, dtype):
@@ -177,7 +193,7 @@ def agree(ctx, mon, prim, model, seq, target_label, deriv=None):
                     ctx.violation(mon, "simulated_in_lower_precision", f"{target_label} after {seq}: float64 buffer {n} holds only float32-representable "
                                   f"values - the simulation was not produced in the declared dtype", sig=sig, sequence=seq, buffer=n)
                     return False
-    if deriv is not None:
+    if deriv is not None and len(list(deriv.underliers())) == 1:  # dtype/device of a derivative on several underliers are documented as undefined
         ctx.branch("derivative.alias")
         if deriv.dtype != prim.dtype or deriv.device != prim.device:
             ctx.violation(mon, "derivative_alias", f"{target_label} after {seq}: derivative.dtype/device {deriv.dtype}/{deriv.device} != underlier's "
@@ -193,11 +209,15 @@ def run_sequence(ctx, kind, ctor_dtype, wrapper, seq):
     prim = build(kind, ctor_dtype)
     model = Model(kind, ctor_dtype)
     deriv = None
+    prim2 = None
     target = prim
     label = f"{kind}[{ctor_dtype}]"
     if wrapper is not None:
+        if wrapper == "spread":
+            prim2 = build(kind, ctor_dtype)
+            ctx.branch("derivative.two_underliers")
         deriv = {"european": lambda: EuropeanOption(prim, maturity=2 * prim.dt), "lookback": lambda: LookbackOption(prim, maturity=2 * prim.dt),
-                 "varswap": lambda: VarianceSwap(prim, maturity=2 * prim.dt)}[wrapper]()
+                 "varswap": lambda: VarianceSwap(prim, maturity=2 * prim.dt), "spread": lambda: Spread(prim, prim2, maturity=2 * prim.dt)}[wrapper]()
         target = deriv
         label = f"{wrapper}({label})"
     done = []
@@ -252,6 +272,8 @@ def run_sequence(ctx, kind, ctor_dtype, wrapper, seq):
                     ctx.branch("op.cast_after_simulate")
             if not agree(ctx, mon, prim, model, list(done), label, deriv):
                 return
+            if prim2 is not None and not agree(ctx, mon, prim2, model, list(done), label + ".second_underlier", None):
+                return
             ctx.ok(mon, sig=(label,) + tuple(done), trivial=not (simulated or "register" in done or "register_int" in done))
             # consumers are evaluated after *every* operation with persistent objects (derivative, listed hedge, hedger), so that
             # anything they cache across a cast / re-simulation is exposed
@@ -275,6 +297,11 @@ def derived(ctx, kind, prim, model, deriv, seq, label, persist):
         persist["listed"] = EuropeanOption(prim, maturity=persist["d"].maturity, strike=1.1)
         persist["listed"].list(P.bs_pricer, cost=1e-3)
         persist["hedger"] = Hedger(MultiLayerPerceptron(in_features=3, out_features=2, n_layers=1, n_units=4), ["log_moneyness", "time_to_maturity", "volatility"])
+        # parameter-free models need no cast: the same hedgers are kept across every cast of the instrument (their state must follow the instrument)
+        persist["free"] = [("naked", Hedger(Naked(out_features=1), ["log_moneyness", "prev_hedge"]))]
+        if isinstance(persist["d"], (EuropeanOption, LookbackOption)):
+            ww = WhalleyWilmott(persist["d"])
+            persist["free"].append(("whalley_wilmott", Hedger(ww, ww.inputs())))
     d, listed, hedger = persist["d"], persist["listed"], persist["hedger"]
     if prim.spot.shape[1] != 3:
         return True
@@ -282,6 +309,8 @@ def derived(ctx, kind, prim, model, deriv, seq, label, persist):
     got = {}
     with torch.no_grad():
         got["payoff"] = d.payoff()
+        if deriv is not None and deriv is not d:
+            got["own_payoff"] = deriv.payoff()
         got["listed_spot"] = listed.spot
         got["features"] = hedger.get_input(d, None)
         got["moneyness"] = d.moneyness()
@@ -292,6 +321,9 @@ def derived(ctx, kind, prim, model, deriv, seq, label, persist):
         got["portfolio"] = hedger.compute_portfolio(d, [prim, listed])
         got["loss"] = hedger.criterion(got["pl"])
         got["bs_delta"] = BlackScholes(d).delta()
+        for nm, fh in persist["free"]:
+            got[nm + ".hedge"] = fh.compute_hedge(d)
+            got[nm + ".pl"] = fh.compute_pl(d)
     for name, v in got.items():
         ctx.seen(mon)
         if v.dtype != x:
@@ -301,7 +333,8 @@ def derived(ctx, kind, prim, model, deriv, seq, label, persist):
         ctx.ok(mon, sig=(label.split("[")[0], name, str(x)))
     # price / compute_loss re-simulate: they must come back in the declared dtype (or the default when none is declared)
     want = model.d if model.d is not None else model.g
-    if want in (F32, F64) and seq and seq[-1] == "simulate" and len(seq) >= 2:
+    multi = deriv is not None and len(list(deriv.underliers())) > 1  # (re-simulating one underlier alone would leave the pair with different path counts)
+    if want in (F32, F64) and seq and seq[-1] == "simulate" and len(seq) >= 2 and not multi:
         h2 = Hedger(MultiLayerPerceptron(in_features=3, out_features=1, n_layers=1, n_units=4), ["log_moneyness", "time_to_maturity", "volatility"]).to(want)
         d2 = EuropeanOption(prim, maturity=2 * prim.dt)
         with torch.no_grad():
@@ -319,7 +352,8 @@ def derived(ctx, kind, prim, model, deriv, seq, label, persist):
     return True
 
 
-TARGETS = [(k_, dt_, None) for k_ in PRIMS for dt_ in (None, F64)] + [("brownian", None, "european"), ("heston", F64, "lookback"), ("merton", None, "varswap")]
+TARGETS = [(k_, dt_, None) for k_ in PRIMS for dt_ in (None, F64)] + [("brownian", None, "european"), ("heston", F64, "lookback"), ("merton", None, "varswap"),
+                                                                        ("brownian", None, "spread")]
 
 
 def drv_exhaustive(ctx, k, rng):
